@@ -161,6 +161,18 @@ CLAIMED["C26"] = dict(
         "unauthenticated outside the POST policy handler). " + TRUST,
    design="DESIGN.md §4 C26")
 
+CLAIMED["C20"] = dict(
+   text="Proof-level kernel: Filer.deleteChunksIfNotNew is verified with inductive loop invariants for chunk lists of any length - every chunk it passes to DeleteChunks "
+        "has a file id that occurs nowhere among the chunks of the new entry (file id = the FileId string or the rendering of the parsed Fid; GetFileIdString's "
+        "caching is proved not to change it), DeleteChunks is called exactly once; guard obligations on the real CreateEntry (the old entry's chunks are collected "
+        "only after exactly one successful InsertEntry/UpdateEntry) and DeleteEntryMetaAndData (chunks reach the direct deletion sink only when data deletion was "
+        "requested and the entry is not hard linked or is the last link), with the store, listing and notification abstracted.",
+   note="Not decided here: the completeness direction (every chunk that stopped being referenced is scheduled), the chunk lists gathered from folder children by "
+        "doBatchDeleteFolderMetaAndData (recursion over listings; the seeded change C20-m1 lives there and is not detected), manifest resolution inside DeleteChunks, the "
+        "deletion queue worker, renames. Assumed: the store deletion helpers do not modify the in-memory entry. One defect repaired (data of a hard linked file deleted "
+        "with the first name). " + TRUST,
+   design="DESIGN.md §4 C20")
+
 NA = {
  "C03":"crash-point property over byte-level truncation of two persistent files; no per-function contract within reach decides it (DESIGN §4 C03)",
  "C10":"needs inductive tree predicates and cardinality reasoning over interface-typed nodes in pointer maps with randomised picking (DESIGN §4 C10)",
